@@ -113,6 +113,27 @@ def r15_1(prog, out):
                     if oa.kind == "call" and bi.call_at(oa.data).callee.path.endswith("::len"):
                         cmps.append((blk.idx, i, s))
         key = "%s:exit-test" % name
+        lazy = [e for e in effs if e.chain and prog.facts.body(e.chain[0][0]) is not None and prog.facts.body(e.chain[0][0]).kind == "Closure"]
+        if lazy and not cmps:
+            tk = [t for cbb, t in bi.calls(lambda c: c.path == "std::iter::Iterator::take")]
+            if tk:
+                r = bounded_by_param(bi, tk[0].args[1], p)
+                k2 = "%s:capacity<=limit" % name
+                if r is True:
+                    out.holds(k2, bi.loc(lazy[0].bb), "n of take(n) is derived from the requested limit by clamp/min/widening only")
+                elif r is False:
+                    out.violation(k2, bi.loc(lazy[0].bb), "n of take(n) is not bounded by the requested limit")
+                else:
+                    out.undecided(k2, bi.loc(lazy[0].bb), "derivation of n from the limit not recognised")
+                if r is True:
+                    out.holds(key, bi.loc(lazy[0].bb), "the pops are driven by an iterator cut with take(n), n bounded by the requested limit (at most max(limit, 1))")
+                elif r is False:
+                    out.violation(key, bi.loc(lazy[0].bb), "the pops are driven by take(n) with n not bounded by the requested limit")
+                else:
+                    out.undecided(key, bi.loc(lazy[0].bb), "the pops are driven by take(n); derivation of n from the limit not recognised")
+            else:
+                out.undecided(key, bi.loc(lazy[0].bb), "the backlog is popped inside a closure driven by a lazy iterator without take(): bound not decided")
+            continue
         if not cmps:
             out.violation(key, bi.loc(pushes[0]), "the pop loop has no size test: a pull returns the whole backlog regardless of max_messages")
             continue
@@ -124,9 +145,9 @@ def r15_1(prog, out):
         if esc is not None and len(esc) > 1:
             out.violation(key, bi.loc(esc[-1]), "a message can be pushed to the result and the next one popped without the size test in between")
         else:
-            sw = b.blocks[cbb].term
-            arms = dict(sw.arms) if sw.k == "switch" else {}
-            true_bb, false_bb = (sw.otherwise, arms.get(0)) if sw.k == "switch" else (None, None)
+            from mapstate import _bool_switches
+            sws = _bool_switches(bi, cs.lhs.local) if cs.lhs.is_local() else []
+            true_bb, false_bb = (sws[0][1], sws[0][2]) if len(sws) == 1 else (None, None)
             op = cs.rv.j["op"]
             # which arm is taken when len(result) has reached the capacity
             stop_bb = {"Ge": true_bb, "Eq": true_bb, "Gt": true_bb, "Lt": false_bb, "Le": false_bb, "Ne": false_bb}.get(op)
@@ -276,7 +297,11 @@ def r15_4(prog, out):
             o = bi.trace(op)
             key = "stream-item:%s" % cl.label
             pull = cl.pulls[0]
-            if o.kind == "call" and o.data in cl.blocks and bi.cfg.dominates(pull.poll_bb, o.data) and bb in cl.blocks:
+            s0 = sl.of(bid, op)
+            pull_site = pull.origin.data if pull.origin is not None and pull.origin.kind == "call" else None
+            via_slice = pull_site is not None and (bid, pull_site) in s0.sites and pull_site in cl.blocks and bb in cl.blocks \
+                and bi.cfg.dominates(pull.poll_bb, bb)
+            if (o.kind == "call" and o.data in cl.blocks and bi.cfg.dominates(pull.poll_bb, o.data) and bb in cl.blocks) or via_slice:
                 s = sl.of(bid, op)
                 acc = [c for c in s.calls if c.split("::")[-1] in ("extend", "append", "extend_from_slice")]
                 if acc:
